@@ -54,13 +54,13 @@ fn of_vtree(t: &VTree) -> Sh {
 
 fn gen_clauses(rng: &mut Rng, frac: usize, thorough: bool) -> Vec<Vec<i64>> {
     let maxv = if thorough { 8 } else { 6 };
-    let nv = 1 + rng.range(0, ((frac * (maxv - 1)) / 100).max(2));
-    let ncl = if rng.chance(1, 25) { 0 } else { rng.range(1, 2 + (frac * 6) / 100) };
+    let nv = 2 + rng.range(0, ((frac * (maxv - 2)) / 100).max(2));
+    let ncl = if rng.chance(1, 25) { 0 } else { rng.range(1, 3 + (frac * 6) / 100) };
     // the labels actually used: sometimes a strict subset (unused indices), sometimes two blocks
     let mut pool: Vec<usize> = (0..nv).collect();
-    if rng.chance(1, 3) && nv > 1 {
+    if rng.chance(1, 4) && nv > 1 {
         rng.shuffle(&mut pool);
-        let keep = rng.range(1, nv);
+        let keep = rng.range(nv.saturating_sub(2).max(1), nv);
         pool.truncate(keep);
     }
     let two_blocks = rng.chance(1, 3) && pool.len() >= 2;
@@ -160,7 +160,7 @@ pub fn gen(rng: &mut Rng, idx: usize, n: usize, thorough: bool) -> String {
     } else if stream < 50 {
         // ---- vtrees
         let maxl = if thorough { 8 } else { 6 };
-        let k = 1 + rng.range(0, ((frac * (maxl - 1)) / 100).max(2));
+        let k = 1 + rng.range(0, ((frac * (maxl - 1)) / 100).max(3));
         let mut labels: Vec<usize> = if rng.chance(1, 4) {
             let mut p = rng.perm(k + 3);
             p.truncate(k); // gaps: unused indices
